@@ -240,6 +240,39 @@ func runPtx(nm *hx.NodeMachine, spec *hx.TxSpec, c *hx.Collector, fs *hx.Finding
 		nm.LastOutcome = "preexec-failed"
 		return nil // the next CheckState proves that nothing changed
 	}
+	// the gas figure of the execution, recomputed from the per-request resource use the response reports and the
+	// chain's gas price, resource by resource (what the execution uses = what the transaction has to pay for)
+	if len(resp.Requests) == len(resp.Responses) {
+		gp := nm.N.Opts.GasPrice
+		up := func(n, rate int64) int64 {
+			if rate == 0 {
+				return 0
+			}
+			return (n + rate - 1) / rate
+		}
+		var want int64
+		for _, rq := range resp.Requests {
+			for _, rl := range rq.ResourceLimits {
+				switch rl.Type {
+				case protos.ResourceType_CPU:
+					want += up(rl.Limit, gp[0])
+				case protos.ResourceType_MEMORY:
+					want += up(rl.Limit, gp[1])
+				case protos.ResourceType_DISK:
+					want += up(rl.Limit, gp[2])
+				case protos.ResourceType_XFEE:
+					want += up(rl.Limit, gp[3])
+				}
+			}
+		}
+		if !nm.N.Opts.NoFee && resp.GasUsed != want {
+			return fmt.Errorf("pre-execution reports %d gas used; the resources it reports (%v) cost %d at the chain's gas price cpu/mem/disk/xfee = %v",
+				resp.GasUsed, resp.Requests[0].ResourceLimits, want, gp)
+		}
+		if gp[2] != gp[3] {
+			nm.Stat["ptx-under-disk-rate-unlike-xfee-rate"]++
+		}
+	}
 	tx := hx.AssembleFromResponse(spec, resp)
 	if tx == nil {
 		nm.LastOutcome = "skipped"
@@ -401,7 +434,7 @@ func genC09Op(rt *rapid.T, nm *hx.NodeMachine, cfg genCfg) hx.NOp {
 
 func TestC09(t *testing.T) {
 	c := hx.NewCollector("C09", "exploration",
-		"generated $verif programs (get / put / putfrom / del / range scans with bounds and early stop feeding a write / nested call / contract-originated transfer / emit / xfee use / fail) over all prior states produced by the node machine are sent through the real pipeline: Chain.PreExec on live state -> transaction assembled exactly as a client does from the InvokeResponse (read/write set, requests with returned limits, contract utxo inputs/outputs, '$' output = gas used) -> re-signed single mutations (declared read not current, written value changed, write added / dropped, program changed, resource limit lowered, fee below gas, contract transfer redirected / lowered, call amount changed) must ALL be refused by VerifyTx/DoTx without trace -> the original is submitted through the real Chain.SubmitTx and must be admitted; after every step the node equals the model, which applies exactly the declared write set and outputs; a failing program makes PreExec fail and changes nothing. Non-trivial = admitted pre-executed transaction whose program has a write depending on a read or scan, a nested call, or a contract transfer; distinct = hash of the trace",
+		"gas price with drawn disk / xfee rates in {1,3,7,100}; the gas a pre-execution reports must equal the cost of the resources it reports, resource by resource; generated $verif programs (get / put / putfrom / del / range scans with bounds and early stop feeding a write / nested call / contract-originated transfer / emit / xfee use / fail) over all prior states produced by the node machine are sent through the real pipeline: Chain.PreExec on live state -> transaction assembled exactly as a client does from the InvokeResponse (read/write set, requests with returned limits, contract utxo inputs/outputs, '$' output = gas used) -> re-signed single mutations (declared read not current, written value changed, write added / dropped, program changed, resource limit lowered, fee below gas, contract transfer redirected / lowered, call amount changed) must ALL be refused by VerifyTx/DoTx without trace -> the original is submitted through the real Chain.SubmitTx and must be admitted; after every step the node equals the model, which applies exactly the declared write set and outputs; a failing program makes PreExec fail and changes nothing. Non-trivial = admitted pre-executed transaction whose program has a write depending on a read or scan, a nested call, or a contract transfer; distinct = hash of the trace",
 		"goleveldb on in-memory storage behaves like LevelDB", "a contract-originated transfer is generated only when the contract owns exactly one output (SelectUtxos' choice among several is map-order dependent)")
 	defer c.Flush(t)
 	fs := hx.LoadFindings()
@@ -414,6 +447,9 @@ func TestC09(t *testing.T) {
 	c.Check(t, "preexec-pipeline", hx.N(250, 2000), func(cs *hx.Case) {
 		rt := cs.RT()
 		opts := hx.DefaultOpts()
+		// gas price: disk and xfee rates other than the 1 / 1 of every shipped genesis file, and unlike each other
+		opts.GasPrice[2] = rapid.SampledFrom([]int64{1, 1, 3, 7, 100}).Draw(rt, "diskrate")
+		opts.GasPrice[3] = rapid.SampledFrom([]int64{1, 1, 3, 7, 100}).Draw(rt, "xfeerate")
 		cs.Op(map[string]interface{}{"opts": opts})
 		nm, err := hx.NewNodeMachine(opts, fs)
 		if err != nil {
